@@ -66,7 +66,7 @@ func (b *FetchResponseBlock) decode(pd packetDecoder, version int16) (err error)
 			}
 		}
 
-		numTransact, err := pd.getArrayLength()
+		numTransact, err := pd.getNullableArrayLength()
 		if err != nil {
 			return err
 		}
